@@ -68,6 +68,7 @@ func (m *ModSet) keys() []string {
 }
 
 type Exec struct {
+	frameUnless string // set by models around a frame check: condition under which nothing is written
 	ai *assignInfo
 	v        *Verifier
 	fn       *ssa.Function
@@ -153,6 +154,23 @@ func (s *State) assumeRanges(v Value) {
 	ts := flatten(v)
 	for i, l := range ls {
 		s.rangeAssume(l, ts[i])
+	}
+	s.sliceInv(ls, ts)
+}
+
+// sliceInv: the invariant of the slice type for symbolic slice values: a slice
+// without a backing array has no elements (s == nil implies len(s) == 0).
+func (s *State) sliceInv(ls []leaf, ts []string) {
+	for i, l := range ls {
+		if !strings.HasSuffix(l.Path, ".arr") && l.Path != ".arr" {
+			continue
+		}
+		base := strings.TrimSuffix(l.Path, ".arr")
+		for j, m := range ls {
+			if m.Path == base+".len" {
+				s.assume(imp(eq(ts[i], "0"), eq(ts[j], "0")))
+			}
+		}
 	}
 }
 
@@ -925,6 +943,9 @@ func (x *Exec) frameCheck(s *State, key, addr string, in ssa.Instruction) {
 				}
 				ds = append(ds, eq(addr, a))
 			}
+			if x.frameUnless != "" {
+				ds = append(ds, x.frameUnless)
+			}
 			if c := or(ds...); c != "true" {
 				o := x.ob("frame", fmt.Sprintf("loop%d#%s", li.ordinal, sanitize(key)), "write to "+key+" outside the loop's modifies clause", in)
 				s.check(o, c)
@@ -935,6 +956,9 @@ func (x *Exec) frameCheck(s *State, key, addr string, in ssa.Instruction) {
 		return
 	}
 	allowed := or(app(">=", addr, x.alloc0), x.mods.allows(key, addr))
+	if x.frameUnless != "" {
+		allowed = or(allowed, x.frameUnless) // the write is empty under this condition
+	}
 	if allowed == "true" {
 		return
 	}
